@@ -318,6 +318,10 @@ func genAttrValue(r *simrt.RNG) string {
 
 func genGff(r *simrt.RNG) C02Plan {
 	pl := C02Plan{Format: "gff", Header: r.Bool(), Width: r.Pick(1, 2, 60, r.Range(1, 200), 5000)}
+	if r.Intn(12) == 0 {
+		// "never wrap": line widths at the far end of int
+		pl.Width = r.Pick(math.MaxInt, math.MaxInt-1, math.MaxInt-r.Intn(64), math.MaxInt32, math.MaxInt32+1, 1<<62)
+	}
 	for i, n := 0, r.Pick(0, 1, 1, 2, 3, 6); i < n; i++ {
 		var it GffItem
 		switch k := r.Intn(10); {
@@ -848,6 +852,7 @@ func init() {
 	register(&Property{
 		ID: "C02",
 		Explore: func(t *testing.T, w *Worker, r *simrt.RNG) {
+			w.Cold(t, genPairC02)
 			if w.unit == 0 {
 				// once per check: lines far longer than any plausible buffer
 				for _, h := range hugeC02() {
